@@ -48,9 +48,8 @@ theorem response_never_answered (exts : List Row) (s : Stanza)
 
 /-! ## 2. The rows: which bundled managers are good, and exactly where the others are not -/
 
-/-- managers whose `handleStanza` today has at least one cell where it is not good -/
-def defectiveMgrs : List Mgr :=
-  [.vcard, .roster, .archive, .bookmark, .mam, .registration, .rpc, .transfer, .uploadRequest]
+/- `defectiveMgrs` (model file) = [vcard, roster, archive, bookmark, mam, registration, rpc, transfer, uploadRequest]:
+   the managers whose `handleStanza` today has at least one cell where it is not good. -/
 
 /-- **Exact row table.** For every bundled manager and EVERY stanza (any number of children): the
 manager's handler is good at the stanza if and only if the stanza is not one of the manager's listed
